@@ -1,0 +1,49 @@
+//! Verification hooks, compiled only with the cargo feature `verif` (off by default).
+//!
+//! Add-only: `pub` forwarding wrappers for crate-private kernels, so that out-of-tree verification
+//! harnesses can drive the real code (also instantiating the generic kernels with small types).
+//! No logic lives here or in the `verif` sub-modules this file re-exports.
+
+pub use crate::action::apply_diff::verif as apply_diff;
+pub use crate::action::diff_mappings::verif as diff;
+pub use crate::action::merge::verif as merge;
+pub use crate::action::extend_inner_class_names::verif as inner_names;
+pub use crate::remapper::verif as remapper;
+
+use anyhow::Result;
+use java_string::{JavaStr, JavaString};
+use crate::tree::mappings_diff::Action;
+use crate::tree::names::{Names, Namespace, Namespaces};
+
+pub fn names_none<const N: usize, T>() -> Names<N, T> { Names::none() }
+pub fn names_from_first_name<const N: usize, T>(src: T) -> Names<N, T> { Names::from_first_name(src) }
+pub fn names_first_name<const N: usize, T: std::fmt::Debug>(names: &Names<N, T>) -> Result<&T> { names.first_name() }
+pub fn names_array<const N: usize, T>(names: &Names<N, T>) -> &[Option<T>; N] { names.names() }
+pub fn names_reorder<const N: usize, T: Clone + std::fmt::Debug>(names: &Names<N, T>, table: [Namespace<N>; N]) -> Result<Names<N, T>> { names.reorder(table) }
+pub fn namespaces_reorder<const N: usize, Ns, Ms>(namespaces: &Namespaces<N, Ns>, table: [Namespace<N>; N]) -> Namespaces<N, Ms> { namespaces.reorder(table) }
+pub fn namespaces_names<const N: usize, Ns>(namespaces: &Namespaces<N, Ns>) -> &[String; N] { namespaces.names() }
+pub fn namespaces_get_namespace<const N: usize, Ns>(namespaces: &Namespaces<N, Ns>, name: &str) -> Result<Namespace<N>> { namespaces.get_namespace(name) }
+pub fn namespaces_change_name<const N: usize, Ns>(namespaces: &mut Namespaces<N, Ns>, namespace: Namespace<N>, from: &str, to: &str) -> Result<String> { namespaces.change_name(namespace, from, to) }
+
+/// `TinyLine::new(line_number, line)` followed by `.action::<T>()`.
+pub fn tiny_line_action<T>(line_number: usize, line: &str) -> Result<Action<T>>
+where
+	T: TryFrom<JavaString> + PartialEq,
+	T::Error: Into<anyhow::Error>,
+{
+	crate::lines::tiny_line::TinyLine::new(line_number, line)?.action()
+}
+/// `TinyLine::new(line_number, line)` followed by `.into_names::<N, T>()`; also returns idents and the first field.
+pub fn tiny_line_into_names<const N: usize, T>(line_number: usize, line: &str) -> Result<(usize, String, Names<N, T>)>
+where
+	T: TryFrom<JavaString, Error = anyhow::Error> + std::fmt::Debug + AsRef<JavaStr>,
+{
+	use crate::lines::Line;
+	let line = crate::lines::tiny_line::TinyLine::new(line_number, line)?;
+	let idents = line.get_idents();
+	let first = line.first_field.clone();
+	Ok((idents, first, line.into_names()?))
+}
+
+pub fn tiny_v2_escape(s: &str) -> String { crate::tiny_v2::escape(s) }
+pub fn tiny_v2_unescape(s: String) -> String { crate::tiny_v2::unescape(s) }
